@@ -348,51 +348,70 @@ def closerOf (c : Char) : Option Char :=
 
 def isCloser (c : Char) : Bool := c = '}' || c = ')' || c = ']'
 
-/-- The loop of `tokeniter` inside a block / variable / line statement.  `bal` = `balancing_stack` (top first).
-The end rule is skipped while `bal` is non-empty. -/
+/-- what one turn of the `tokeniter` loop does inside a block / variable / line statement -/
+inductive TagAct where
+  /-- the end rule matched `n` characters: end token, `#pop` -/
+  | finish (n : Nat)
+  /-- a tag rule matched `n` characters: token of type `t`, new balancing stack -/
+  | emit (t : TT) (n : Nat) (bal : List Char)
+  /-- `tokeniter` ends here: nothing matches at the end of the text (`[]`), or an error is raised -/
+  | stop (toks : List Tok)
+  deriving DecidableEq, Repr
+
+/-- the operator rule with the brace balancing of `tokeniter` (`bal` = `balancing_stack`, top first) -/
+def operatorAct (bal : List Char) (op : Str) : TagAct :=
+  match op with
+  | [c] =>
+    match closerOf c with
+    | some cl => .emit .operator 1 (cl :: bal)
+    | none =>
+      if isCloser c then
+        match bal with
+        | [] => .stop [.err (.unexpectedClose c)]
+        | top :: bal' => if top = c then .emit .operator 1 bal' else .stop [.err (.unexpectedCloseExpected c top)]
+      else .emit .operator 1 bal
+  | _ => .emit .operator op.length bal
+
+/-- The rules of a tag state in the order `tokeniter` tries them (`fl` = what `float_re` matches here — the only
+rule with a look-behind).  The end rule is skipped while the balancing stack is non-empty. -/
+def tagRules (tb : Tables) (st : TagState) (trim : Bool) (bal : List Char) (fl : Option Nat) (s : Str) : TagAct :=
+  match (if bal.isEmpty then endAt st trim s else none) with
+  | some n => .finish n
+  | none =>
+  match posSpan isSpace s with
+  | some n => .emit .whitespace n bal
+  | none =>
+  match fl with
+  | some n => .emit .float n bal
+  | none =>
+  match posSpan tb.isDigit s with
+  | some n => .emit .integer n bal
+  | none =>
+  match posSpan tb.isWord s with
+  | some n => .emit .name n bal
+  | none =>
+  match stringAt s with
+  | some n => .emit .string n bal
+  | none =>
+  match operatorAt tb.operators s with
+  | some n => operatorAct bal (s.take n)
+  | none =>
+    match s with
+    | [] => .stop []
+    | c :: _ => .stop [.err (.unexpectedChar c)]
+
+def tagAct (tb : Tables) (st : TagState) (trim : Bool) (bal : List Char) (prev : Option Char) (s : Str) : TagAct :=
+  tagRules tb st trim bal (floatAt tb prev s) s
+
+/-- The loop of `tokeniter` inside a block / variable / line statement (`fuel`: `s.length + 1` suffices). -/
 def lexTag (tb : Tables) (st : TagState) (trim : Bool) : Nat → List Char → Option Char → Str → Inner
   | 0, _, _, _ => .halt [.outOfFuel]
   | fuel + 1, bal, prev, s =>
-    match (if bal.isEmpty then endAt st trim s else none) with
-    | some n => .done [.tok st.endTT (s.take n)] (s.drop n) (prevAfter prev (s.take n))
-    | none =>
-      let simple (t : TT) (n : Nat) : Inner :=
-        (lexTag tb st trim fuel bal (prevAfter prev (s.take n)) (s.drop n)).cons (.tok t (s.take n))
-      match posSpan isSpace s with
-      | some n => simple .whitespace n
-      | none =>
-      match floatAt tb prev s with
-      | some n => simple .float n
-      | none =>
-      match posSpan tb.isDigit s with
-      | some n => simple .integer n
-      | none =>
-      match posSpan tb.isWord s with
-      | some n => simple .name n
-      | none =>
-      match stringAt s with
-      | some n => simple .string n
-      | none =>
-      match operatorAt tb.operators s with
-      | some n =>
-        let op := s.take n
-        let continue_ (bal' : List Char) : Inner :=
-          (lexTag tb st trim fuel bal' (prevAfter prev op) (s.drop n)).cons (.tok .operator op)
-        match op with
-        | [c] =>
-          match closerOf c with
-          | some cl => continue_ (cl :: bal)
-          | none =>
-            if isCloser c then
-              match bal with
-              | [] => .halt [.err (.unexpectedClose c)]
-              | top :: bal' => if top = c then continue_ bal' else .halt [.err (.unexpectedCloseExpected c top)]
-            else continue_ bal
-        | _ => continue_ bal
-      | none =>
-        match s with
-        | [] => .halt []
-        | c :: _ => .halt [.err (.unexpectedChar c)]
+    match tagAct tb st trim bal prev s with
+    | .finish n => .done [.tok st.endTT (s.take n)] (s.drop n) (prevAfter prev (s.take n))
+    | .emit t n bal' =>
+      (lexTag tb st trim fuel bal' (prevAfter prev (s.take n)) (s.drop n)).cons (.tok t (s.take n))
+    | .stop toks => .halt toks
 
 /-- The state entered by a begin token of kind `k`.  No dependence on Nunavut's edit. -/
 def innerF (lstrip trim : Bool) (tb : Tables) (k : RKind) (prev : Option Char) (s : Str) : Inner :=
@@ -406,6 +425,12 @@ def innerF (lstrip trim : Bool) (tb : Tables) (k : RKind) (prev : Option Char) (
 
 /-! ## `tokeniter` -/
 
+/-- after a tag state: its tokens, then the root state again (`#pop`) — or the end of `tokeniter` -/
+def Inner.andThen (i : Inner) (next : Option Char → Str → List Tok) : List Tok :=
+  match i with
+  | .done toks rest prev => toks ++ next prev rest
+  | .halt toks => toks
+
 /-- The loop of `Lexer.tokeniter` from the root state (`fuel`: `src.length + 1` suffices — every root step consumes
 at least the begin token). -/
 def lexF (e : Env) (tb : Tables) : Nat → Option Char → Str → List Tok
@@ -414,11 +439,8 @@ def lexF (e : Env) (tb : Tables) : Nat → Option Char → Str → List Tok
     match findBeginF e prev src with
     | none => if src.isEmpty then [] else [.tok .data src]
     | some (o, k, n) =>
-      let rest := src.drop (o + n)
       optTok .data (src.take o) ++ .tok k.beginTT ((src.drop o).take n) ::
-        (match innerF e.lstrip e.trim tb k (prevAfter prev (src.take (o + n))) rest with
-         | .done toks rest' prev' => toks ++ lexF e tb fuel prev' rest'
-         | .halt toks => toks)
+        (innerF e.lstrip e.trim tb k (prevAfter prev (src.take (o + n))) (src.drop (o + n))).andThen (lexF e tb fuel)
 
 /-- `Lexer.tokeniter(source)`: normalisation, then the rules from the root state at offset 0. -/
 def tokeniter (e : Env) (tb : Tables) (keep : Bool) (source : Str) : List Tok :=
@@ -475,5 +497,27 @@ def parserWraps (t : PTok) : Bool :=
   match t with
   | .tok _ ty v => (ty = .blockBegin || ty = .variableBegin) && v.getLast? == some '*'
   | _ => false
+
+/-! ## vocabulary of the marker theorems -/
+
+def Kind.toR : Kind → RKind
+  | .raw => .raw | .variable => .variable | .comment => .comment | .block => .block
+
+/-- `{{` opens a variable, `{%` a block -/
+def kindOf (c : Char) : Kind := if c = '{' then Kind.variable else Kind.block
+
+/-- the text after a begin sequence does not start with one of the sign characters that change what the sequence
+means: `{%-` (strip), `{%*` (Nunavut's marker), `{%+` (no lstrip) -/
+def noSign (t : Str) : Prop := t.head? ≠ some '-' ∧ t.head? ≠ some '*' ∧ t.head? ≠ some '+'
+
+/-- `Environment` settings as Nunavut leaves them: no line statements, no line comments -/
+def Env.noLinePrefixes (e : Env) : Prop := e.lineStmt = none ∧ e.lineCmt = none
+
+/-- ASCII instance of the tables (for closed examples; the driver uses the generated tables) -/
+def asciiTables : Tables where
+  isWord c := c.isAlphanum || c = '_'
+  isDigit c := c.isDigit
+  operators := [['/', '/'], ['*', '*'], ['=', '='], ['!', '='], ['>', '='], ['<', '=']] ++
+    "+-/*%~[](){}><=.:|,;".toList.map fun c => [c]
 
 end NunavutVerif.Lexer
